@@ -107,6 +107,7 @@ func workerMain(args []string) {
 		fmt.Fprintf(w, "# %d\n", idx)
 		w.Flush()
 		c := genCase(stream, seed, idx)
+		c.lines = append([]string{zLine(seed, idx)}, c.lines...)
 		for _, full := range c.lines {
 			line, annot := full, ""
 			if i := strings.Index(full, "\t"); i >= 0 {
@@ -177,7 +178,13 @@ type runCfg struct {
 
 // goOnly: lines the Lean driver is not asked about (judged on the
 // implementation alone).
-func goOnly(line string) bool { return strings.HasPrefix(line, "Q ") || strings.HasPrefix(line, "TY ") }
+func goOnly(line string) bool {
+	return strings.HasPrefix(line, "Q ") || strings.HasPrefix(line, "TY ") || strings.HasPrefix(line, "Z ")
+}
+
+// zLine is the history-poisoning call made before case idx (see poison.go); it is part of the
+// case, so a replay repeats it.
+func zLine(seed uint64, idx int) string { return fmt.Sprintf("Z %d", idx*7+int(seed%1000)) }
 
 // runStream runs case indices [0,count) of a stream.
 func runStream(cfg runCfg, stream string, count int, st *stats) {
@@ -264,6 +271,12 @@ func handleAnswer(cfg runCfg, lean *leanProc, stream string, idx int, line, goAn
 	}
 	st.mu.Lock()
 	defer st.mu.Unlock()
+	if strings.HasPrefix(line, "Z ") {
+		if base == "crash" || base == "timeout" {
+			st.crashes = append(st.crashes, result{stream: stream, idx: idx, line: line, goAns: goAns})
+		}
+		return
+	}
 	st.evals++
 	k := line[:strings.Index(line+" ", " ")] + ":" + ansKind(base)
 	st.kinds[k]++
